@@ -86,7 +86,10 @@ type Spec struct {
 	PreTasks int `json:"pre_tasks,omitempty"`
 	// PreLink - the preliminary tasks form a chain (pre k depends on pre k-1); after that Run every second task of the
 	// history is made to depend on a task that has already completed, and the graph is sorted once more
-	PreLink       bool `json:"pre_link,omitempty"`
+	PreLink bool `json:"pre_link,omitempty"`
+	// PreSkip - with PreLink: the first task of the preliminary chain returns ErrorSkipParents, so the rest of the chain is
+	// skipped in the preliminary Run - and must stay that way in the Run that follows
+	PreSkip       bool `json:"pre_skip,omitempty"`
 	PreMaxPar     int  `json:"pre_maxpar,omitempty"`
 	SerialMask    int  `json:"serial_mask,omitempty"`     // bit g set: graph g of a shared-task workload runs in serial mode
 	WrapSkip      bool `json:"wrap_skip,omitempty"`       // ErrorSkipParents is returned wrapped in another error (fmt.Errorf("...: %w", ...))
@@ -287,6 +290,7 @@ type Trace struct {
 	Output                 string       `json:"output,omitempty"`
 	OutputWrites           int          `json:"output_writes,omitempty"`
 	OutputRead             bool         `json:"output_read,omitempty"`  // every Run returned: the plain writer was read
+	PreExec                []int        `json:"pre_exec,omitempty"`     // executions of the preliminary tasks over both Runs
 	PreSortBad             string       `json:"pre_sort_bad,omitempty"` // Spec.PreLink: DepthFirstSort after the preliminary Run was not dependencies-first
 	InnerOutput            string       `json:"inner_output,omitempty"` // Spec.Nested: what the inner graph's own writer received
 	InnerRan               bool         `json:"inner_ran,omitempty"`
@@ -463,6 +467,7 @@ type runner struct {
 	attemptErrs    [][]error // [task][attempt-1], used with Spec.AttemptErrs
 	inner          *plainWriter
 	preSortBad     string
+	preExec        []int32
 	innerRan       bool
 	innerErr       error
 	out            *plainWriter
@@ -653,11 +658,18 @@ func (r *runner) build(gi int, tasks []*dag.Task) *dag.Graph {
 	}
 	g.UseColor = false
 	if r.spec.PreTasks > 0 {
+		r.preExec = make([]int32, r.spec.PreTasks)
 		for k := 0; k < r.spec.PreTasks; k++ {
+			k := k
 			fail := r.spec.PreFail && k == 0
+			skip := r.spec.PreSkip && r.spec.PreLink && !r.spec.PreFail && k == 0
 			g.AddTask(dag.NewTask(fmt.Sprintf("pre%d", k), func(context.Context, *getoptions.GetOpt, []string) error {
+				atomic.AddInt32(&r.preExec[k], 1)
 				if fail {
 					return errors.New("verif: preliminary task failure")
+				}
+				if skip {
+					return dag.ErrorSkipParents
 				}
 				return nil
 			}))
@@ -1284,6 +1296,9 @@ func Execute(spec *Spec) *Trace {
 		// every Run returned: its goroutines are gone, plain state can be read
 		tr.Output = string(r.out.buf)
 		tr.OutputRead = true
+		for i := range r.preExec {
+			tr.PreExec = append(tr.PreExec, int(atomic.LoadInt32(&r.preExec[i])))
+		}
 		if r.innerRan {
 			tr.InnerRan = true
 			tr.InnerOutput = string(r.inner.buf)
